@@ -94,3 +94,16 @@ def run_e2(chk, src, name, timeout=60, harness_args=(), support=C.FEAT_MIN_SRCS,
                 desc = '%s: native replay terminated abnormally rc=%s %s' % (sig, rc, (se or so)[-300:])
                 chk.violation(sig if not sig_prefix else sig_prefix(sig), desc, {'harness': src, 'case': c['name'], 'assignment': r1.get('assign', {})})
     return d
+
+
+E2_TRUSTED = ['g++-12 compiling the real FEAT templates with the SymReal scalar (same template source, different scalar)',
+              'vsym term DAG + SMT-LIB printer (every root cross-checked against the shadow double each run)',
+              'z3 5.1.0 (z3-new), nonlinear real arithmetic', 'hand-written oracles in the harness files']
+E2_ASSUME = ['real arithmetic on values: the claim is about the rational functions the code computes, rounding is outside',
+             'divisors are non-zero wherever the executed code divides (asserted as hypotheses of each query)',
+             'path conditions recorded by concolic execution restrict each obligation (counted in evidence)']
+E2_RULE = 'one obligation = one identity (or inequality) between a result of the real code and the oracle term for one discrete configuration; non-trivial = the two DAG terms differ syntactically and z3 answered unsat over all real values of the free variables'
+
+
+def e2_harness_path(name):
+    return os.path.join(C.VERIF, 'harness', name)
